@@ -1,7 +1,7 @@
 (* C03 — stream framing: consumed ++ remainder = input; the result ignores trailing bytes;
    no proper prefix of a completely consumed encoding parses. *)
 From Model Require Import Bytes Prim Tables Cert KAC Mapping Sig LS RI.
-From Proofs Require Import BytesLemmas PrimProofs Frame LeafProofs KacRT OffProofs MapRT UptoRT AppendAll.
+From Proofs Require Import BytesLemmas PrimProofs Frame LeafProofs KacRT OffProofs MapRT UptoRT AppendAll Retail.
 Open Scope Z_scope.
 
 (* general: prefix-freeness is a consequence of append-invariance, for every parser *)
@@ -108,3 +108,40 @@ Print Assumptions C03_router_info_prefix_free.
 (* LeaseSet (v1): whatever follows the signature is ignored — same value, exactly *)
 Theorem C03_lease_set_ignores_trailing : forall d l y, wf (d ++ y) -> read_lease_set d = Ok l -> read_lease_set (d ++ y) = Ok l.
 Proof. exact read_lease_set_ignores_trailing. Qed.
+
+(* ---- replace the tail: the general form of "the result does not depend on what follows" ----
+   a reader that accepts c ++ t leaving t accepts c ++ t' leaving t', for EVERY t', with a value
+   of the same serialisation (append-invariance is t' = t ++ y; t' = [] is "the consumed bytes
+   alone parse with an empty remainder") *)
+Theorem C03_replace_tail_certificate : forall x c r r', wf x -> read_certificate x = Ok (c, r) ->
+  exists b c', cert_bytes c = Ok b /\ x = b ++ r /\ read_certificate (b ++ r') = Ok (c', r') /\
+    cert_bytes c' = Ok b /\ c_kind c' = c_kind c /\ cert_len_int c' = cert_len_int c /\ cert_kind_int c' = cert_kind_int c.
+Proof. exact read_certificate_retail. Qed.
+Theorem C03_replace_tail_key_certificate : forall x kc r r', wf x -> new_key_certificate x = Ok (kc, r) ->
+  exists b kc', keycert_bytes kc = Ok b /\ x = b ++ r /\ new_key_certificate (b ++ r') = Ok (kc', r') /\
+    keycert_bytes kc' = Ok b /\ kc_signing_type kc' = kc_signing_type kc /\ kc_crypto_type kc' = kc_crypto_type kc.
+Proof. exact new_key_certificate_retail. Qed.
+Theorem C03_replace_tail_keys_and_cert : forall x k r r', wf x -> read_keys_and_cert x = Ok (k, r) ->
+  exists b k', kac_bytes k = Ok b /\ x = b ++ r /\ read_keys_and_cert (b ++ r') = Ok (k', r') /\ kac_bytes k' = Ok b /\
+    kc_signing_type (k_kc k') = kc_signing_type (k_kc k) /\ kc_crypto_type (k_kc k') = kc_crypto_type (k_kc k).
+Proof. exact read_keys_and_cert_retail. Qed.
+Print Assumptions C03_replace_tail_keys_and_cert.
+Theorem C03_replace_tail_destination : forall x k r r', wf x -> read_destination x = Ok (k, r) ->
+  exists b k', kac_bytes k = Ok b /\ x = b ++ r /\ read_destination (b ++ r') = Ok (k', r') /\ kac_bytes k' = Ok b /\
+    kc_signing_type (k_kc k') = kc_signing_type (k_kc k) /\ kc_crypto_type (k_kc k') = kc_crypto_type (k_kc k).
+Proof. exact read_destination_retail. Qed.
+Theorem C03_replace_tail_mapping : forall c r r' m e, wf (c ++ r) -> read_mapping (c ++ r) = Some (m, r, e) -> fatal_errors e = [] ->
+  exists e', read_mapping (c ++ r') = Some (m, r', e') /\ fatal_errors e' = [].
+Proof. exact read_mapping_retail. Qed.
+(* LeaseSet2: provided the new input is not shorter than the reader's whole-input minimum (D6) *)
+Theorem C03_replace_tail_lease_set2 : forall x l r r', wf x -> wf r' -> read_lease_set2 x = Ok (l, r) ->
+  exists c, x = c ++ r /\
+    (Gen.Consts.c_lease_set2_LEASESET2_MIN_SIZE <= Z.of_nat (length (c ++ r')) ->
+     exists l', read_lease_set2 (c ++ r') = Ok (l', r') /\ lease_set2_bytes l' = lease_set2_bytes l).
+Proof. exact read_lease_set2_retail. Qed.
+Print Assumptions C03_replace_tail_lease_set2.
+Theorem C03_replace_tail_meta_lease_set : forall x l r r', wf x -> wf r' -> read_meta_lease_set x = Ok (l, r) ->
+  exists c, x = c ++ r /\
+    (Gen.Consts.c_meta_leaseset_META_LEASESET_MIN_SIZE <= Z.of_nat (length (c ++ r')) ->
+     exists l', read_meta_lease_set (c ++ r') = Ok (l', r') /\ meta_lease_set_bytes l' = meta_lease_set_bytes l).
+Proof. exact read_meta_lease_set_retail. Qed.
